@@ -7,7 +7,7 @@ from symex.values import FALSE, TRUE, mk_and, mk_eq, mk_if, mk_not, mk_or, rv
 from .common import (FAIL, GOOD, MISSING, SUSPECT, cases, flag_is, iv, shape_obligations)
 
 LAT_MENU = [-90, -45.5, -10, 0, 0.0009765625, 10, 45.5, 89, 90]
-LON_MENU = [-180, -179.5, -90, -10, 0, 0.0009765625, 10, 90, 179.5, 180]
+LON_MENU = [-180, -179.5, -90, -10, 0, 0.0009765625, 10, 90, 170, 170.0009765625, 179.5, 180]
 
 
 class Location(Job):
